@@ -106,7 +106,7 @@ def main(argv):
         return 2
     plan = json.loads(out.stdout.strip().splitlines()[-1])
     nshards = nshards_override or min(NCPU, plan.get('shards', NCPU), max(1, plan['ncases']))
-    budget = plan.get('budget_s', 120)
+    budget = plan.get('budget_s', 120) * float(os.environ.get('KV_BUDGET_SCALE', '1') or 1)
     outdir = os.path.join(env['TMPDIR'], 'kv-run-%s-%d-%d' % (pid, os.getpid(), int(t0)))
     os.makedirs(outdir, exist_ok=True)
     procs = []
